@@ -215,8 +215,11 @@ pub fn run_c15(rep: &mut Report, thorough: bool) {
     for &n in &counts {
         let reps = if thorough { 12 } else { 1 };
         for _ in 0..reps {
-            let sentinels = std::cmp::min(n - 1, 6);
-            let cfg = TargetCfg { sentinels, max_spinners: 1, heartbeats: 0, sleepers: n - 1 - sentinels, exiters: 0, names: true, regions: 1, elf_files: 0, fds: 0, stack_pages_max: 2, null_sp_threads: 0, big_region_pages: 0 };
+            let sentinels = std::cmp::min(n - 1, 6) - (n >= 4 && n - 1 <= 6) as usize;
+            // (from 4 threads on, one of them runs with a null stack pointer: the writer leaves it out,
+            // and the threads created after it must keep their own names)
+            let nullsp = (n >= 4) as usize;
+            let cfg = TargetCfg { sentinels, max_spinners: 1, heartbeats: 0, sleepers: n - 1 - sentinels - nullsp, exiters: 0, names: true, regions: 1, elf_files: 0, fds: 0, stack_pages_max: 2, null_sp_threads: nullsp, big_region_pages: 0 };
             let mut sc = match scen::build_target(&mut rng, &cfg) {
                 Ok(s) => s,
                 Err(e) => {
